@@ -71,7 +71,8 @@ fn request_cases(base: &Req, thorough: bool) -> Vec<Case> {
         b[siglen_off..siglen_off + 8].copy_from_slice(&n.to_le_bytes());
         v.push(mk(name, base, b, None));
     }
-    let step = if thorough { 1 } else { 3 };
+    let _ = thorough;
+    let step = 1;
     for cut in (0..full.len()).step_by(step) {
         v.push(mk("truncated", base, full[..cut].to_vec(), None));
     }
@@ -112,7 +113,7 @@ fn witness_cases(base: &Req, s: &Setup, thorough: bool) -> Vec<Case> {
             }
         }
         let full = witness_bytes(&s.ci);
-        let step = if thorough { 1 } else { 7 };
+        let step = 1;
         for cut in (0..full.len()).step_by(step) {
             v.push(mk("truncated", &s.ci, full[..cut].to_vec(), false));
         }
